@@ -14,7 +14,8 @@ import time
 from pathlib import Path
 
 VERIF = Path(__file__).resolve().parents[1]
-REPO = "/repo"
+import os
+REPO = os.environ.get("NSTD_REPO", "/repo")   # a scratch worktree/snapshot when set (isolated experiments); /repo otherwise
 
 
 def sh(cmd, **kw):
@@ -23,7 +24,7 @@ def sh(cmd, **kw):
 
 def main():
     import fcntl
-    lock = open("/tmp/nstd-seedtest.lock", "w")
+    lock = open("/tmp/nstd-seedtest" + REPO.replace("/", "_") + ".lock", "w")
     fcntl.flock(lock, fcntl.LOCK_EX)          # one seeded run on /repo at a time (waits)
     args = [a for a in sys.argv[1:] if not a.startswith("--")]
     tier = "quick"
